@@ -4,7 +4,8 @@ import TracklibVerif.Lemmas.ExprErr
 import TracklibVerif.Lemmas.ExprPre9
 /-! # C02 — algebraic feature expressions evaluate to ordinary arithmetic on the features
 
-Property theorems only (helpers: `Lemmas/Rpn.lean`, `Lemmas/Expr.lean`, `Lemmas/ExprRpn.lean`).
+Property theorems only (helpers: `Lemmas/Rpn.lean`, `Lemmas/RpnChars.lean`, `Lemmas/Expr.lean`, `Lemmas/ExprRpn.lean`,
+`Lemmas/ExprPointwise.lean`, `Lemmas/ExprErr.lean` (error direction), `Lemmas/ExprPre*.lean` (the rewriting chain)).
 Models: `Model/Rpn.lean` (token-level `utils.makeRPN`) and `Model/Expr.lean` (the rewriting chain,
 character-level `makeRPN`, `__evaluateRPN` / `__applyOperation`, the operator classes, the purge of
 `Track.operate`). The scalar type `α` is abstract (`Scalar α`): the statements hold for the `Float`
@@ -12,8 +13,9 @@ instance the driver runs as well as for exact arithmetic; no law of arithmetic i
 
 `denoteM tr e` is the *tree semantics*: structural recursion on the expression tree with the operator
 definitions of core/operators.py at each node (pointwise `+ - * / ^ < >` with the NaN-on-zero rule of
-`Divider`, number∘feature and feature∘number forms, `I D D2 ABS SQRT`, `SUM AVG MIN MAX MEDIAN MAD STD`);
-it has no stack, no temporaries and no parser. -/
+`Divider`, number∘feature and feature∘number forms, `I D D2 ABS SQRT LOG DIODE SIGN EXP COS SIN TAN`,
+`SUM AVG VAR STD MSE RMSE MAD MIN MAX MEDIAN ARGMIN ARGMAX`); it has no stack, no temporaries and no parser.
+The theorems cover both directions (value: T1–T5, error: T6) and start from the string the user types (T7). -/
 namespace TV.C02
 open TV.Expr TV.Rpn
 
@@ -100,7 +102,8 @@ theorem operate_show_value (tr : Tr α) (e : Ex) (v : Val α) (fuel : Nat)
 
 /-- **T4 (operator objects agree with the evaluator)**: `Track.operate(Operator.X, …)` with a new
 output name returns exactly the tree semantics of the corresponding one-node expression
-(`a∘b`, `a∘number`, `number∘a`, `f{a}`); together with T3a this is "applying the operator objects
+(`a∘b`, `a∘number`, `number∘a`, `f{a}` for each of the 12 void functions — `LOG` with its own way of storing
+the result included — and the 12 aggregates); together with T3a this is "applying the operator objects
 directly gives the same values". -/
 theorem operator_objects_agree (tr : Tr α) (o : Char) (f a b lit out : Str) (ca cb : List α) (s : α)
     (ga : getAF tr a = .ok ca) (gb : getAF tr b = .ok cb) (hs : litOf lit = some s)
